@@ -61,19 +61,12 @@ def excluded(spec):
         if name == "Cryptographic Usage Mask" and val & ~G.KNOWN_MASK:
             return "usage mask with bits outside the enumeration (silently dropped)"
     for i in _infos(spec):
-        if i.get("params") is None:
-            return "key wrapping data: key information without cryptographic parameters (not storable)"
-        if not any(i["params"].values()):
+        if i.get("params") is not None and not any(i["params"].values()):
             return "key wrapping data: cryptographic parameters with only falsy values (dropped)"
     if o.get("prime") is not None and o["prime"] >= 2 ** 63:
         return "split key prime field size >= 2**63 (not storable: General Failure at commit)"
     if o.get("type") == "SecretData" and (o.get("fmt", "OPAQUE") != "OPAQUE" or "alg" in o or "len" in o):
         return "secret data key block with format / algorithm / length (discarded)"
-    if o.get("type") == "Certificate" and o.get("ctype") != "X_509":
-        return "certificate type other than X.509 (not storable)"
-    if o.get("type") == "Certificate" and any(n in ("Cryptographic Algorithm", "Cryptographic Length")
-                                              for n, _ in attrs):
-        return "certificate with Cryptographic Algorithm / Length attribute (not storable)"
     if path == "pie":
         g = X.group_by_name(spec.get("attrs", []))
         if spec["how"] == "register" and len(g.get("Name", [])) > 1:
@@ -104,6 +97,7 @@ def known_paths():
     P["mask-unknown-bits"] = _reg("raw", (1, 2), sym, [["Cryptographic Usage Mask", 0x4 | (1 << 30)]])
     P["wrap-params-falsy"] = _reg("raw", (1, 4), dict(sym, value=_K16 + "aabbccddeeff0011", wrap={
         "method": "ENCRYPT", "eki": {"uid": "7", "params": {"random_iv": False, "iv_length": 0}}}), [])
+    # once General Failure answers, now fixed in the repository (regression cases, no C05 bucket either way)
     P["wrap-no-params"] = _reg("raw", (1, 2), dict(sym, value=_K16 + "aabbccddeeff0011", wrap={
         "method": "ENCRYPT", "eki": {"uid": "7", "params": None}}), [])
     P["prime-2-63"] = _reg("raw", (1, 2), split, [])
